@@ -5,6 +5,7 @@
 #include <sys/time.h>
 #include <fcntl.h>
 #include <chrono>
+#include <ctime>
 #include <exception>
 #include <fstream>
 #include <iostream>
@@ -56,6 +57,7 @@ void dump_and_report(const char* oracle) {
     (void)!write(1, buf, n);
     return;
   }
+  fflush(stdout);  // not async-signal-safe, but the process is dying: keeps the END lines and makes the CRASH line start a line
   int fd = open(g_plan_path, O_WRONLY | O_CREAT | O_TRUNC, 0644);
   if (fd >= 0) { (void)!write(fd, g_plan_text.data(), g_plan_text.size()); close(fd); }
   char buf[1024];
@@ -167,7 +169,7 @@ int harness_main(int argc, char** argv) {
     std::string outdir = get("--outdir", "/tmp");
     long samples_wanted = atol(get("--samples", "0").c_str());
     auto t0 = std::chrono::steady_clock::now();
-    long done = 0, fails = 0, last = -1;
+    long done = 0, fails = 0, last = -1, max_ms_run = -1; double max_ms = 0;
     bool timed_out = false;
     // runs start, start+1, ... start+count-1; this worker takes those with (r-start) % stride == offset
     for (long r = start + offset; r < start + count; r += stride) {
@@ -181,7 +183,9 @@ int harness_main(int argc, char** argv) {
         char sp[600]; snprintf(sp, sizeof sp, "%s/sample-%s-%ld.plan", outdir.c_str(), prop.c_str(), r);
         std::ofstream(sp) << g_plan_text;
       }
+      clock_t c0 = clock();
       Outcome o = run_plan(e, p);
+      double ms = 1000.0 * (double)(clock() - c0) / CLOCKS_PER_SEC; if (ms > max_ms) { max_ms = ms; max_ms_run = r; }
       ++done; last = r;
       if (o.ok) {
         printf("END %ld %016llx %016llx %d\n", r, (unsigned long long)o.ev, (unsigned long long)o.traj, o.nontrivial ? 1 : 0);
@@ -195,7 +199,7 @@ int harness_main(int argc, char** argv) {
     // statistics for the evidence file
     std::ostringstream js;
     js << "{\"done\":" << done << ",\"last\":" << last << ",\"fails\":" << fails << ",\"timed_out\":" << (timed_out ? "true" : "false")
-       << ",\"steps\":" << stats().steps << ",\"distinct_states\":" << stats().states.size() << ",\"distinct_interleavings\":" << stats().interleavings.size() << ",\"counters\":{";
+       << ",\"max_run_cpu_ms\":" << (long)max_ms << ",\"max_run_cpu_ms_run\":" << max_ms_run << ",\"steps\":" << stats().steps << ",\"distinct_states\":" << stats().states.size() << ",\"distinct_interleavings\":" << stats().interleavings.size() << ",\"counters\":{";
     bool first = true;
     for (auto& kv : stats().c) { js << (first ? "" : ",") << "\"" << json_escape(kv.first) << "\":" << kv.second; first = false; }
     js << "},\"kf\":[";
